@@ -1,4 +1,6 @@
-(* Proofs/SelectPred.v — is_clause (exactly one root-to-1 path) and is_valuation (exactly one satisfying valuation). *)
+(* Proofs/SelectPred.v — is_clause (exactly one root-to-1 path) and is_valuation (exactly one satisfying valuation).
+   Both characterisations hold on every benign diagram; on a NON-reduced one a unique path is a stronger condition than
+   `the function is a single cube` (a redundant test doubles the paths): see is_clause_benign_refuted in SelectBenign.v. *)
 From Coq Require Import List PeanoNat NArith Lia Bool.
 Import ListNotations.
 From BddVerif Require Import Model.Bdd Model.Apply Model.Ops Model.Select Proofs.Sem Proofs.Canon Proofs.Reflect
@@ -29,7 +31,7 @@ Proof.
     + intros ds' P'. destruct (Hhead ds' P') as (r' & -> & Pr'). f_equal. apply U. exact Pr'.
 Qed.
 
-Lemma is_clause_walk_spec b : wf b -> reduced b -> forall fuel p, valid b p -> enough b p fuel ->
+Lemma is_clause_walk_spec b : wf b -> nz b -> forall fuel p, valid b p -> enough b p fuel ->
   exists r, is_clause_walk fuel b p = Ok r /\ (r = true <-> unique_path b p).
 Proof.
   intros W R. induction fuel as [|f IH]; intros p V E; [unfold enough in E; lia|].
@@ -53,11 +55,16 @@ Proof.
            congruence.
 Qed.
 
-Theorem is_clause_iff b : Canonical b ->
+Theorem is_clause_iff_benign b : Benign b ->
   exists r, is_clause b = Ok r /\ (r = true <-> unique_path b (root b)).
 Proof.
   intros (W & R & _). unfold is_clause. apply is_clause_walk_spec; try assumption; [apply valid_root|apply enough_root]; exact W.
 Qed.
+Print Assumptions is_clause_iff_benign.
+
+Theorem is_clause_iff b : Canonical b ->
+  exists r, is_clause b = Ok r /\ (r = true <-> unique_path b (root b)).
+Proof. intros C. apply is_clause_iff_benign. apply canonical_benign. exact C. Qed.
 Print Assumptions is_clause_iff.
 
 (* ======================================================================================== *)
@@ -94,7 +101,7 @@ Proof.
       rewrite upd_other by exact Hne. apply U; [exact Hc|lia|exact Hx2].
 Qed.
 
-Lemma is_valuation_walk_spec b : wf b -> reduced b -> forall fuel p e, valid b p -> enough b p fuel -> e <= var_of b p ->
+Lemma is_valuation_walk_spec b : wf b -> nz b -> forall fuel p e, valid b p -> enough b p fuel -> e <= var_of b p ->
   exists r, is_valuation_walk fuel b p e = Ok r /\ (r = true <-> unique_sat_from b p e).
 Proof.
   intros W R. induction fuel as [|f IH]; intros p e V E He; [unfold enough in E; lia|].
@@ -117,7 +124,7 @@ Proof.
            ++ destruct (IH (nlow (get b p)) (var_of b p + 1) Vl (enough_child b p false f W Hge Vp E) ltac:(lia)) as (r & Hr & Hiff).
               exists r. split; [exact Hr|]. rewrite Hiff. symmetry. apply (unique_sat_forced b p false W Hge Vp). exact Eh.
            ++ exists false. split; [reflexivity|]. split; [discriminate|]. intros (v & Hv & U). exfalso.
-              destruct (nonzero_sat b _ W R Vl El) as (vl & Hl). destruct (nonzero_sat b _ W R Vh Eh) as (vh & Hh).
+              destruct (nonzero_sat_benign b _ W R Vl El) as (vl & Hl). destruct (nonzero_sat_benign b _ W R Vh Eh) as (vh & Hh).
               assert (H0 : sem b p (upd vl (var_of b p) false) = true) by (rewrite sem_cof' by assumption; exact Hl).
               assert (H1 : sem b p (upd vh (var_of b p) true) = true) by (rewrite sem_cof' by assumption; exact Hh).
               pose proof (U _ H0 (var_of b p) ltac:(lia) Hxn) as A0. pose proof (U _ H1 (var_of b p) ltac:(lia) Hxn) as A1.
@@ -163,11 +170,16 @@ Proof.
     rewrite <- (U _ S). now rewrite list_of_val_get.
 Qed.
 
-Theorem is_valuation_iff b : Canonical b ->
+Theorem is_valuation_iff_benign b : Benign b ->
   exists r, is_valuation b = Ok r /\ (r = true <-> unique_sat_list b).
 Proof.
   intros (W & R & _). unfold is_valuation.
   destruct (is_valuation_walk_spec b W R (wfuel b) (root b) 0 (valid_root b W) (enough_root b W) ltac:(lia)) as (r & Hr & Hiff).
   exists r. split; [exact Hr|]. rewrite Hiff. apply unique_sat_root. exact W.
 Qed.
+Print Assumptions is_valuation_iff_benign.
+
+Theorem is_valuation_iff b : Canonical b ->
+  exists r, is_valuation b = Ok r /\ (r = true <-> unique_sat_list b).
+Proof. intros C. apply is_valuation_iff_benign. apply canonical_benign. exact C. Qed.
 Print Assumptions is_valuation_iff.
